@@ -495,6 +495,19 @@ func (c *ctx) oneDg4() []string {
 		if c.rng.Intn(3) == 0 {
 			d.UpdateOption(dhcpv4.OptParameterRequestList(dhcpv4.OptionRouter, dhcpv4.OptionDomainNameServer))
 		}
+		if c.rng.Intn(5) == 0 {
+			// a client that announces how long a reply it takes (option 57), with identifiers long enough that the
+			// reply is longer than that: what is echoed may not depend on it (round 7 of the seeded changes)
+			ms := []uint16{576, 576, 548, 300, 1, 0, uint16(c.rng.Intn(65536))}[c.rng.Intn(7)]
+			d.UpdateOption(dhcpv4.OptGeneric(dhcpv4.OptionMaximumDHCPMessageSize, []byte{byte(ms >> 8), byte(ms)}))
+			for _, code := range []dhcpv4.OptionCode{dhcpv4.OptionRelayAgentInformation, dhcpv4.OptionClientIdentifier} {
+				if c.rng.Intn(3) != 0 {
+					v := make([]byte, 150+c.rng.Intn(106))
+					c.rng.Read(v)
+					d.UpdateOption(dhcpv4.OptGeneric(code, v))
+				}
+			}
+		}
 		dg := c.mutate(d.ToBytes())
 		bound := []int{0, 0, 3, 7}[c.rng.Intn(4)]
 		oob := []int{-1, 0, 2, 5, 5}[c.rng.Intn(5)]
